@@ -134,6 +134,17 @@ func newFlagSet(name string) *flag.FlagSet {
 }
 
 func addFlag(fs *flag.FlagSet, name string, value any, description string) error {
+	// The methods of flag.FlagSet that define flags panic on these names.
+	if strings.HasPrefix(name, "-") || strings.Contains(name, "=") {
+		return errs.BadValue{What: "flag name",
+			Valid:  "string not starting with - and not containing =",
+			Actual: vals.ReprPlain(name)}
+	}
+	if fs.Lookup(name) != nil {
+		return errs.BadValue{What: "flag name",
+			Valid:  "name not already used by another flag",
+			Actual: vals.ReprPlain(name)}
+	}
 	switch value := value.(type) {
 	case bool:
 		fs.Bool(name, value, description)
